@@ -1,0 +1,64 @@
+//! Verification hook H2 (only compiled with `--cfg isographlabs_isograph_verif`).
+//!
+//! A monitor can install a function that is called at a few named points that
+//! lie *between* the critical sections of the arena / sharded set, so that it
+//! can stretch those windows (yield, spin, sleep) and record which thread got
+//! where.  When no function is installed `verif_point` is one relaxed load.
+//! The load is `Relaxed` on purpose: the hook must not add synchronisation
+//! edges to the code that is being observed.
+//!
+//! The arena type is private to this crate; it is re-exported here so that a
+//! monitor can drive it directly.
+
+use std::sync::atomic::AtomicPtr;
+use std::sync::atomic::Ordering;
+
+pub use crate::atomic_arena::AtomicArena;
+pub use crate::atomic_arena::Ref;
+pub use crate::atomic_arena::Zero;
+
+/// Low 8 bits of the argument of a hook call: the site.  The remaining bits
+/// carry a site specific detail (the bucket index for the arena sites).
+pub const SITE_MASK: u32 = 0xff;
+pub const DETAIL_SHIFT: u32 = 8;
+
+/// `AtomicArena::add_get`: after the `fetch_add` that reserved the slot, before
+/// the bucket pointer is fetched.  detail = bucket index.
+pub const ARENA_AFTER_FETCH_ADD: u32 = 1;
+/// `AtomicArena::slice_for_slot`: the unlocked load saw a null bucket pointer;
+/// `bucket_alloc_mutex` is not taken yet.  detail = bucket index.
+pub const ARENA_NULL_BUCKET_BEFORE_LOCK: u32 = 2;
+/// `AtomicArena::add_get`: the element was written, the `Ref` is not returned yet.
+pub const ARENA_AFTER_SLOT_WRITE: u32 = 3;
+/// `ShardedSet::get_or_insert_lock`: `try_write` failed, read-check not started.
+pub const SHARD_TRY_WRITE_FAILED: u32 = 4;
+/// `ShardedSet::get_or_insert_lock`: read-check missed (read lock released),
+/// blocking `write()` not started.
+pub const SHARD_READ_MISS_BEFORE_WRITE: u32 = 5;
+/// `InternTable::intern`: between `arena.add` and `insert_lock.insert`.  This is
+/// inside the shard write lock that `intern` itself holds; a delay here only
+/// lengthens the hold time.
+pub const INTERN_BETWEEN_ADD_AND_INSERT: u32 = 6;
+/// `InternTable::serdes_type_index_slow`: between the global `fetch_add` and the CAS.
+pub const SERDES_INDEX_BEFORE_CAS: u32 = 7;
+pub const NUM_SITES: u32 = 8;
+
+static HOOK: AtomicPtr<()> = AtomicPtr::new(std::ptr::null_mut());
+
+/// Install (or with `None` remove) the function called by `verif_point`.
+pub fn set_hook(f: Option<fn(u32)>) {
+    let p = match f {
+        Some(f) => f as *mut (),
+        None => std::ptr::null_mut(),
+    };
+    HOOK.store(p, Ordering::Relaxed);
+}
+
+#[inline]
+pub fn verif_point(site: u32) {
+    let p = HOOK.load(Ordering::Relaxed);
+    if !p.is_null() {
+        let f: fn(u32) = unsafe { std::mem::transmute::<*mut (), fn(u32)>(p) };
+        f(site);
+    }
+}
